@@ -116,9 +116,10 @@ def run(ctx):
                 pass
             res["violations"].append(violation_record(h, i, clause, extra))
     C.detail_summary(histories, r["details"], res)
+    scc_reuse_stream(ctx, res)
     # correspondence streams actually run: (1) model snapshots / aliasing vs real heap, (2) pristine reads,
     # (3) the same histories in processes with other hash seeds (each evaluated by the oracle on its own)
-    res["streams"] = 1 + (1 if r["pristine"] else 0) + (1 if len(r["by_seed"]) > 1 else 0)
+    res["streams"] = 2 + (1 if r["pristine"] else 0) + (1 if len(r["by_seed"]) > 1 else 0)   # 2 = heap model + SCC decoder-state model
     dist["oracle_evaluated_in_processes_with_hashseed"] = sorted(r["by_seed"])
     for (hi, d) in r["disagreements"][:40]:
         res["disagreements"].append({"history": histories[hi], "op_index": d["i"], "what": d["what"],
@@ -155,10 +156,19 @@ def run(ctx):
                    "options varied) on fresh and reused reader objects incl. re-reads of the same document, API builds, "
                    "writes by the 8 writers, edits (add_style, rules in place, caption time/style/layout, node "
                    "append/content, caption removal). Non-trivial = a history that reuses a reader object, or that has "
-                   ">= 2 sets and an edit; distinct histories counted.")
+                   ">= 2 sets and an edit; distinct histories counted. Plus (wave 7) sequences of 2-3 SCC documents on ONE "
+                   "SCCReader object (pop-on / roll-up / paint-on / mixed, refused documents, offsets, re-reads, 'dirty pairs': "
+                   "document 1 ends in a non-initial decoder state that the start of document 2 would notice), each read "
+                   "compared with a new reader object and with the decoder-state model (request 1002).")
     res["samples"] = [C.describe_history(h) for h in histories[len(CORPUS):len(CORPUS) + 5]]
     res["clauses"] = {
-        "theorem": ["THE MODEL MEETS THE ORACLE: ok_c10 evaluated on the model's own observations of any history reports "
+        "theorem": ["SCC READER REUSE (wave 7, over the decoder model): a read() of an SCCReader object in ANY state returns what "
+                    "a new object returns, for every document / offset, provided the reset covers the twelve decoder fields; "
+                    "lifted to every history of documents incl. refused ones; the code's reset covers them; refuted for "
+                    "no reset and for six single-field omissions (C10_scc_read_independent_of_reader_state, "
+                    "C10_scc_reader_history_isolated, C10_scc_partial_resets_refuted); the model is executed against the "
+                    "real reused reader on generated document sequences (request 1002)",
+                    "THE MODEL MEETS THE ORACLE: ok_c10 evaluated on the model's own observations of any history reports "
                     "nothing (C10_model_meets_oracle)",
                     "caption sets created by different reads / builds occupy disjoint, closed regions of the heap, "
                     "whatever the history (invariant over arbitrary histories of reads, builds, writes, edits)",
@@ -178,7 +188,229 @@ def run(ctx):
     return res
 
 
+# ---- wave 7: the decoder state of a reused SCCReader object (coq/model/SccReuse.v over the decoder model) -----------------
+SCC_FIELDS = ["caption_stash", "position_tracker", "last_command", "double_starter", "buffer pop", "buffer paint",
+              "buffer roll", "active buffer", "pop_ons_queue", "time", "time_translator._last_time",
+              "time_translator._frames"]
+ATTR_FIELDS = {"caption_stash": [0], "node_creator_factory": [1], "last_command": [2], "double_starter": [3],
+               "buffer_dict": [4, 5, 6, 7], "pop_ons_queue": [8], "time": [9], "time_translator": [10, 11]}
+
+
+def source_reset_fields(repo):
+    """which decoder fields SCCReader.read re-creates before the first line, read off the SOURCE: `self.X = ..`
+    statements of read() before its first loop, calls of self.m() / Cls.m(self) followed two levels deep.
+    None when the source does not have the expected shape (then nothing is concluded from it)."""
+    import ast
+    import os
+    try:
+        tree = ast.parse(open(os.path.join(repo, "pycaption", "scc", "__init__.py"), encoding="utf-8").read())
+        cls = [n for n in tree.body if isinstance(n, ast.ClassDef) and n.name == "SCCReader"][0]
+        meths = {n.name: n for n in cls.body if isinstance(n, ast.FunctionDef)}
+        names = set()
+
+        def walk(stmts, depth, stop_at_loop):
+            for st in stmts:
+                if stop_at_loop and isinstance(st, (ast.For, ast.While)):
+                    return
+                for node in ast.walk(st):
+                    if isinstance(node, (ast.Assign, ast.AnnAssign, ast.AugAssign)):
+                        tg = node.targets if isinstance(node, ast.Assign) else [node.target]
+                        for t in tg:
+                            if isinstance(t, ast.Attribute) and isinstance(t.value, ast.Name) and t.value.id == "self":
+                                names.add(t.attr)
+                    if isinstance(node, ast.Call) and isinstance(node.func, ast.Attribute) and depth < 2:
+                        f = node.func
+                        own = isinstance(f.value, ast.Name) and (f.value.id == "self" or (
+                            f.value.id == "SCCReader" and node.args and isinstance(node.args[0], ast.Name)
+                            and node.args[0].id == "self"))
+                        if own and f.attr in meths and f.attr != "read":
+                            walk(meths[f.attr].body, depth + 1, False)
+        walk(meths["read"].body, 0, True)
+        out = set()
+        for a in names:
+            out.update(ATTR_FIELDS.get(a, []))
+        return sorted(out)
+    except Exception:  # noqa
+        return None
+
+
+MODE_WORDS = {"94ae", "9420", "9425", "9426", "94a7", "9429", "94ad"}
+
+
+def _secs(stamp):
+    p = stamp.replace(";", ":").split(":")
+    try:
+        return int(p[0]) * 3600 + int(p[1]) * 60 + int(p[2])
+    except Exception:  # noqa
+        return 0
+
+
+def dirty_pair(rng, d1, d2):
+    """make document 1 END in a state that is not the initial one and document 2 START in a way that would notice:
+    cmd    : doc 1 ends with a single (not doubled) control code X, doc 2 begins with the same single X (last_command /
+             double_starter: a leaked X would be taken for the repetition and skipped)
+    stamp  : doc 2 begins at the very timecode doc 1 ended with (time translator: _last_time / _frames)
+    noflip : doc 1 loses its final 942f / 942c words (text left in a non-displayed / displayed buffer, queue)
+    nomode : doc 2's first line loses its leading mode commands (active buffer, cursor)"""
+    l1, l2 = d1.split("\n"), d2.split("\n")
+    i1 = [i for i, l in enumerate(l1) if "\t" in l]
+    i2 = [i for i, l in enumerate(l2) if "\t" in l]
+    if not i1 or not i2:
+        return d1, d2
+    modes = rng.choice([["cmd"], ["stamp"], ["noflip"], ["nomode"], ["cmd", "stamp"], ["noflip", "nomode"],
+                        ["noflip", "stamp"], ["cmd", "nomode"]])
+    if "noflip" in modes:
+        st, ws = l1[i1[-1]].split("\t", 1)
+        ws = ws.split(" ")
+        while ws and ws[-1] in ("942f", "942c"):
+            ws.pop()
+        if ws:
+            l1[i1[-1]] = st + "\t" + " ".join(ws)
+    last = l1[i1[-1]].split("\t")[0]
+    if "cmd" in modes:
+        x = rng.choice([G._pac(rng.choice([11, 12, 13]), rng.choice([0, 4, 8])), "91ae", "9420", "94ad", "9429", "9425"])
+        last = G._stamp(_secs(last) + 1)
+        l1 += ["%s\t%s" % (last, x), ""]
+        st, ws = l2[i2[0]].split("\t", 1)
+        l2[i2[0]] = st + "\t" + x + " " + ws
+    if "nomode" in modes:
+        st, ws = l2[i2[0]].split("\t", 1)
+        ws = ws.split(" ")
+        while ws and ws[0] in MODE_WORDS:
+            ws.pop(0)
+        if ws:
+            l2[i2[0]] = st + "\t" + " ".join(ws)
+    if "stamp" in modes:
+        st, ws = l2[i2[0]].split("\t", 1)
+        l2[i2[0]] = last + "\t" + ws
+    return "\n".join(l1), "\n".join(l2)
+
+
+def gen_scc_docs(rng):
+    k = rng.choice([2, 2, 3])
+    docs = []
+    for j in range(k):
+        d = G.bad_doc(rng, "scc") if (j < k - 1 and rng.random() < 0.25) else G.doc_scc(rng)
+        docs.append([d, rng.choice([0, 0, 0, 1, 2])])
+    if rng.random() < 0.2:
+        docs[-1] = list(docs[0])
+    if rng.random() < 0.6:
+        docs[-2][0], docs[-1][0] = dirty_pair(rng, docs[-2][0], docs[-1][0])
+    return docs
+
+
+def scc_real(docs):
+    """-> (results of read k on ONE reader object, results of read k on a new reader object)"""
+    import sccobs as O
+    reused, fresh = [], []
+    for k, (d, off) in enumerate(docs):
+        reused.append(O.observe(d, offset=off, history=[(x, {"offset": o}) for x, o in docs[:k]]))
+        fresh.append(O.observe(d, offset=off))
+    return reused, fresh
+
+
+def scc_reuse_failures(docs):
+    import sccobs as O
+    reused, fresh = scc_real(docs)
+    return [(k, O.same(a, b)) for k, (a, b) in enumerate(zip(reused, fresh)) if O.same(a, b) is not None]
+
+
+def scc_model(hs, fields):
+    import sccobs as O
+    from wire import oracle_batch
+    reqs = [(1002, [list(fields), [[O.exact(off) * 1000000, d] for d, off in docs]]) for docs in hs]
+    out = []
+    for x in oracle_batch(reqs):
+        out.append(None if x == [-1] else (bool(x[0]), [O.dec_model(r) for r in x[1]]))
+    return out
+
+
+def scc_reuse_stream(ctx, res):
+    """One SCCReader object reads 2-3 documents (pop-on / roll-up / paint-on / mixed, refused documents in between, offsets,
+    re-reads).  Real: every read on the reused object and on a new object.  Model: reader_history (request 1002) with the
+    reset of the code (all decoder fields) - by theorem equal to the fresh reads - and with each field left out of the
+    reset in turn: counts on how many generated histories leaking that field would change a result (the reach of the
+    generator, per field).  Oracle: reused == new object (the property); correspondence: reused real == model."""
+    import random
+    import sccobs as O
+    rng = random.Random(ctx.rng.getrandbits(64))
+    n = ctx.n(60, 250)
+    hs = [gen_scc_docs(rng) for _ in range(n)]
+    dist = res["distribution"]
+    full = list(range(12))
+    m_full = scc_model(hs, full)
+    exposes = {}
+    for f in full:
+        m_f = scc_model(hs, [g for g in full if g != f])
+        cnt = 0
+        for a, b in zip(m_full, m_f):
+            if a is not None and b is not None and any(O.same(x, y) is not None for x, y in zip(a[1], b[1])):
+                cnt += 1
+        exposes[SCC_FIELDS[f]] = cnt
+    outside, compared, reads, raised = 0, 0, 0, 0
+    for docs, m in zip(hs, m_full):
+        reused, fresh = scc_real(docs)
+        res["evaluations"] += 1
+        reads += len(docs)
+        raised += sum(1 for x in reused if not isinstance(x, O.Ok))
+        bad = [(k, O.same(a, b)) for k, (a, b) in enumerate(zip(reused, fresh)) if O.same(a, b) is not None]
+        if bad:
+            k, why = bad[0]
+            if not any(v.get("replay") == "scc-reuse" for v in res["violations"]):
+                res["violations"].append({"kind": "read-differs-from-pristine:scc", "replay": "scc-reuse", "docs": docs,
+                                          "input": docs, "op_index": k,
+                                          "what": "read %d of %d on ONE SCCReader object differs from the same read on a "
+                                                  "new object: %s" % (k + 1, len(docs), why)})
+            continue
+        if m is None or not m[0]:
+            res["disagreements"].append({"what": "SCC reuse model rejected the request / reset does not cover", "model": m})
+            continue
+        in_domain = all(O.same(a, b) is None for a, b in zip(fresh, m[1]))
+        if not in_domain:
+            outside += 1          # the decoder model itself differs from the code on a fresh read: C05 / C06 own that
+            continue
+        compared += 1
+        res["nontrivial"].add(json.dumps(docs))
+        for k, (a, b) in enumerate(zip(reused, m[1])):
+            if O.same(a, b) is not None:
+                res["disagreements"].append({"what": "SCC reader reuse: read %d on the reused object vs decoder-state model: %s"
+                                                     % (k + 1, O.same(a, b)), "history": docs, "op_index": k})
+                break
+    src = source_reset_fields(ctx.repo)
+    note = None
+    if src is not None and set(src) != set(full):
+        # the source does not visibly re-create some field: let the MODEL find histories on which that matters, then ask the
+        # real reader (a failing input or nothing)
+        missing = [f for f in full if f not in src]
+        tries = [gen_scc_docs(rng) for _ in range(300)]
+        a_ = scc_model(tries, full)
+        b_ = scc_model(tries, src)
+        cand = [d for d, x, y in zip(tries, a_, b_) if x and y and any(O.same(p, q) is not None for p, q in zip(x[1], y[1]))]
+        confirmed = 0
+        for docs in cand[:40]:
+            bad = scc_reuse_failures(docs)
+            if bad:
+                confirmed += 1
+                if not any(v.get("replay") == "scc-reuse" for v in res["violations"]):
+                    res["violations"].append({"kind": "read-differs-from-pristine:scc", "replay": "scc-reuse", "docs": docs,
+                                              "input": docs, "op_index": bad[0][0],
+                                              "what": "read() does not re-create %s; model-guided search: read %d on ONE "
+                                                      "SCCReader object differs from the same read on a new object: %s"
+                                                      % ([SCC_FIELDS[f] for f in missing], bad[0][0] + 1, bad[0][1])})
+        note = {"fields_not_visibly_reset_in_source": [SCC_FIELDS[f] for f in missing],
+                "model_predicted_exposing_histories": len(cand), "confirmed_on_the_real_reader": confirmed}
+    dist["scc_reader_reuse"] = {"histories": n, "reads": reads, "reads_that_raised": raised,
+                                "compared_with_decoder_state_model": compared,
+                                "outside_decoder_model_domain_(fresh_read_differs)": outside,
+                                "histories_on_which_leaking_the_field_changes_a_result_(model)": exposes,
+                                "reset_fields_read_off_the_source": None if src is None else [SCC_FIELDS[f] for f in src],
+                                "source_vs_model": note}
+
+
 def replay(ctx, rec):
+    if rec.get("replay") == "scc-reuse":
+        bad = scc_reuse_failures(rec["docs"])
+        return bool(bad), [(k, "read-differs-from-pristine:scc") for k, _ in bad]
     h = rec["history"]
     ok, r = C.still_fails(h, ctx.repo, "C10", rec["clause"], rec.get("hashseed"))
     return ok, [(i, C.CLAUSES[c]) for (_, i, c, _) in r["violations"]]
